@@ -634,7 +634,18 @@ impl Def {
 						attrs.push_str("#[codec(skip)] ");
 					}
 					if let Some(k) = v.index_attr {
-						attrs.push_str(&format!("#[codec(index = {k})] "));
+						// the literal is written in varying styles (all are the same integer to Rust and to the derive)
+						let lit = match (k as usize + i) % 5 {
+							1 => format!("0x{k:x}"),
+							2 if k >= 10 => {
+								let d = k.to_string();
+								format!("{}_{}", &d[..1], &d[1..])
+							},
+							3 => format!("{k}{}", if k <= 255 { "u8" } else { "u16" }),
+							4 => format!("0b{k:b}"),
+							_ => k.to_string(),
+						};
+						attrs.push_str(&format!("#[codec(index = {lit})] "));
 					}
 					let body = if v.fields.is_empty() { String::new() } else { fields_src(&v.fields, v.tuple, false) };
 					let discr = v.discriminant.map(|d| format!(" = {d}")).unwrap_or_default();
